@@ -124,7 +124,7 @@ func run(c *Ctx) error {
 		if r.Panic != "" || r.Hang {
 			what := "class=crash: the node/wallet process died: " + r.Panic
 			if r.Hang {
-				what = "class=hang: no answer within 150 s"
+				what = "class=hang: no answer within 400 s"
 			}
 			c.Stats.Fail(what, descr)
 			c.Stats.Case(key, false)
